@@ -110,7 +110,7 @@ def gen_sequence(r: random.Random) -> list[list]:
 			ops.append(['can_resolve', c, sym])
 		elif x < 0.86:
 			f = r.choice([x for x in u.FACTORIES if x not in EXCLUDED_FACTORIES])
-			ops.append(['invoke', c, f, r.choice(['match', 'match', 'match', 'drop', 'extra', 'wrongtype']), r.randrange(1000)])
+			ops.append(['invoke', c, f, r.choice(['match', 'match', 'match', 'drop', 'extra', 'wrongtype', 'explicit']), r.randrange(1000)])
 		elif x < 0.95:
 			same = [i for i in range(ncont) if kinds[i] == kinds[c]]
 			ops.append(['combine', c, r.choice(same)])
@@ -172,9 +172,17 @@ class Runner:
 			if not (isinstance(p, str) and p in mc.bind):
 				break
 			k += 1
+		if mode == 'explicit':
+			# arguments also for leading parameters the container is supposed to fill itself (from parameter j on)
+			k = salt % (k + 1)
 		rest = []
 		for p in params[k:]:
-			if isinstance(p, str):
+			if isinstance(p, tuple):
+				obj = p[0]() if salt % 3 else None
+				if obj is not None:
+					self.seen[id(obj)] = obj
+				rest.append(obj)
+			elif isinstance(p, str):
 				obj = self.u.SYMBOLS[p]()
 				self.seen[id(obj)] = obj
 				rest.append(obj)
